@@ -253,6 +253,50 @@ Definition sem_agree (k : nat) (f1 f2 : func) (en : senv) : bool :=
   | _, _ => false
   end.
 
+(* exact comparison of the static views (next-index counters are private in Rust and not dumped) *)
+Definition instr_eqb (a b : instruction) : bool :=
+  (i_index a =? i_index b) && op_eqb (i_op a) (i_op b) && optZ_eqb (i_addr a) (i_addr b).
+Definition block_eqb (a b : block) : bool := (b_index a =? b_index b) && list_eqb instr_eqb (b_instrs a) (b_instrs b).
+Definition edge_eqb (a b : edge) : bool := (e_head a =? e_head b) && (e_tail a =? e_tail b) && lab_eqb (e_cond a) (e_cond b).
+Definition cfg_eqb (a b : cfg) : bool :=
+  list_eqb block_eqb (g_blocks a) (g_blocks b) && list_eqb edge_eqb (g_edges a) (g_edges b) &&
+  optZ_eqb (g_entry a) (g_entry b) && optZ_eqb (g_exit a) (g_exit b).
+
+(* ------------------------------------------------------------------ tb_spec, tested on the recorded block translations *)
+(* every block translation the real translate_block returned is a straight-line run of the program's units (as
+   lifted in isolation), ended by the first control transfer with that unit's successors, or cut earlier with the
+   fall-through successor: the run_spec hypothesis of Props/C06.v recover_struct_once / recover_lang_partial /
+   recover_executes_like_machine_code, checked on the real (toy, MIPS, x86) block translators *)
+Fixpoint graphs_match (gs : list cfg) (ins : list (Z * cfg)) : option (list (Z * cfg)) :=
+  match gs with
+  | [] => Some ins
+  | g :: gs' => match ins with
+                | (_, g') :: ins' => if cfg_eqb g g' then graphs_match gs' ins' else None
+                | [] => None
+                end
+  end.
+Definition succ_eqb (a b : list (Z * option expr)) : bool :=
+  list_eqb (fun x y => (fst x =? fst y) && lab_eqb (snd x) (snd y)) a b.
+Fixpoint run_check (items : list pinstr) (fuel : nat) (a : Z) (ins : list (Z * cfg)) (succ : list (Z * option expr)) : bool :=
+  match fuel with
+  | O => false
+  | S f =>
+      match find_pi items a with
+      | None => false
+      | Some p =>
+          match graphs_match (pi_graphs p) ins with
+          | None => false
+          | Some [] => if pi_plain p then succ_eqb succ [(pi_addr p + pi_len p, None)] else succ_eqb succ (merge_succ [] (pi_succ p))
+          | Some rest => pi_plain p && run_check items f (pi_addr p + pi_len p) rest succ
+          end
+      end
+  end.
+Definition tb_check (items : list pinstr) (tb : tbtable) : bool :=
+  forallb (fun ar => match snd ar with
+                     | Ok r => run_check items (S (length (br_instrs r))) (fst ar) (br_instrs r) (br_succ r)
+                     | _ => true
+                     end) tb.
+
 (* ------------------------------------------------------------------ the case *)
 Inductive case :=
 | KRec (fa : Z) (items : list pinstr) (manual : list medge) (inits : list senv)
@@ -262,7 +306,7 @@ Inductive case :=
 
 Definition oracle_parts (k : case) : list bool :=
   match k with
-  | KRec fa items ms inits drv _ obs =>
+  | KRec fa items ms inits drv tb obs =>
       match gprog fa items ms with
       | None => [false]
       | Some gp =>
@@ -274,6 +318,7 @@ Definition oracle_parts (k : case) : list bool :=
                 names_ok (f_cfg f);
                 forallb (sem_agree 48 f gp) inits;
                 drv;
+                tb_check items tb;
                 (* side conditions of Props/C06.v lang_eq_exec_sem, so that the theorem applies to this very pair of
                    graphs (with manual edges a block may legitimately carry two equal guards) *)
                 match ms with
@@ -284,15 +329,6 @@ Definition oracle_parts (k : case) : list bool :=
           end
       end
   end.
-
-(* exact comparison of the static views (next-index counters are private in Rust and not dumped) *)
-Definition instr_eqb (a b : instruction) : bool :=
-  (i_index a =? i_index b) && op_eqb (i_op a) (i_op b) && optZ_eqb (i_addr a) (i_addr b).
-Definition block_eqb (a b : block) : bool := (b_index a =? b_index b) && list_eqb instr_eqb (b_instrs a) (b_instrs b).
-Definition edge_eqb (a b : edge) : bool := (e_head a =? e_head b) && (e_tail a =? e_tail b) && lab_eqb (e_cond a) (e_cond b).
-Definition cfg_eqb (a b : cfg) : bool :=
-  list_eqb block_eqb (g_blocks a) (g_blocks b) && list_eqb edge_eqb (g_edges a) (g_edges b) &&
-  optZ_eqb (g_entry a) (g_entry b) && optZ_eqb (g_exit a) (g_exit b).
 
 (* tie: the model INCLUDING the final merge returns exactly the observed function (same blocks with the same
    instruction index fields, same edges, entry, exit), or the same error; the merge-free model is compared too
